@@ -177,6 +177,20 @@ def roundtrip_diff(lf, lg):
     return sorted(set(out))
 
 
+def parse_record_offsets(text):
+    """ncoffsets -r : {variable: [(start, end) per record]}"""
+    out = {}; cur = None
+    for line in text.split('\n'):
+        m = re.match(r'^\s+(\w+)\s+([^\s(:]+)(\(.*\))?:\s*$', line)
+        if m: cur = m.group(2); continue
+        m = re.search(r'(start|end)\s+file offset =\s*(\d+)\s+\((\d+)(?:st|nd|rd|th) record\)', line)
+        if m and cur:
+            lst = out.setdefault(cur, []); k = int(m.group(3))
+            while len(lst) <= k: lst.append([None, None])
+            lst[k][0 if m.group(1) == 'start' else 1] = int(m.group(2))
+    return out
+
+
 def parse_offsets(text):
     out = {}
     cur = None
@@ -414,6 +428,17 @@ def main(tier=None, only=None):
             if rc2 != 0 or o is None or o[0] != v.begin or (o[1] is not None and o[1] - o[0] != v.byte_size):
                 V(('tool', 'ncoffsets', 'offset or size'), label, '%s: ncoffsets reports %s for %s, decoder finds begin %d size %d' % (label, o, v.name, v.begin, v.byte_size)); break
         ck.outcomes.add(('ncoffsets', rc2))
+        # per-record offsets of record variables
+        if any(v.is_record for v in f.vars) and f.numrecs > 0:
+            rc4, out4 = run([U['ncoffsets'], '-r', p])
+            ro = parse_record_offsets(out4)
+            for v in f.vars:
+                if not v.is_record: continue
+                want = [(v.begin + r * f.recsize, v.begin + r * f.recsize + v.byte_size) for r in range(f.numrecs)]
+                got = [tuple(x) for x in ro.get(v.name, [])]
+                if rc4 != 0 or got != want:
+                    V(('tool', 'ncoffsets', 'per-record offsets'), label, '%s: ncoffsets -r reports %s for the records of %s, decoder finds %s' % (label, got[:6], v.name, want[:6])); break
+            ck.outcomes.add(('ncoffsets -r', rc4))
         # regenerate from the dump
         cdlp = p + '.cdl'; open(cdlp, 'w').write(out)
         gen = p + '.gen.nc'
@@ -477,7 +502,7 @@ def main(tier=None, only=None):
     ck.cov['rule'] = ('corpus = 12 encoder-made files (3 formats x 4 schemas) + a slice of the library-written C03 files; per file: ncvalidator accepts it and every pure layout re-encoding; ncvalidator rejects each specification-violating '
                       'single header edit (bad tag, non-null name padding, entry count too large, second unlimited dimension, dimid out of range, begin inside header, descending begins, bad nc_type, bad version byte); cdfdiff and ncmpidiff report '
                       'equality for layout re-encodings and a difference for every single logical edit (each/representative element of each variable, each attribute value, each name, each dimension length, the record count, the format version); '
-                      'ncmpidump parsed as CDL equals the decoder\'s view; ncoffsets equals decoded begins and sizes; ncmpigen(ncmpidump(f)) decodes to the same logical content')
+                      'ncmpidump parsed as CDL equals the decoder\'s view; ncoffsets equals decoded begins and sizes, ncoffsets -r the start and end of every record; ncmpigen(ncmpidump(f)) decodes to the same logical content')
     ck.sample('ncvalidator -q f ; cdfdiff -q f f\' ; mpirun -np 1 ncmpidiff -q f f\' ; ncmpidump f | ncmpigen -o g ; ncoffsets f   (corpus item enc-v1-record2 etc.)')
     shutil.rmtree(work, ignore_errors=True)
     runner.cleanup()
